@@ -202,6 +202,10 @@ fn corner_arrivals() -> Vec<ArrSpec> {
         ArrSpec::Sporadic { t: 3, j: 0 },
         ArrSpec::Sporadic { t: 1, j: 0 },
         ArrSpec::Curve { dmin: vec![0, 5] },
+        // delta-min vectors that end in a plateau: bursts of two / three simultaneous events at a
+        // fixed distance (the repetition count of a plain curve then depends on the plateau)
+        ArrSpec::Curve { dmin: vec![0, 6, 6] },
+        ArrSpec::Curve { dmin: vec![0, 0, 9, 9, 9] },
     ]
 }
 
